@@ -44,7 +44,7 @@ def _clean_lit(s):
 
 
 class PanicSite:
-    __slots__ = ("body", "bb", "kind", "what", "msg", "span", "exp", "term", "ordinal")
+    __slots__ = ("body", "bb", "kind", "what", "msg", "span", "exp", "term", "ordinal", "cond")
 
     def __init__(self, body, bb, kind, what, msg, span, exp, term=None):
         self.body = body
@@ -56,6 +56,7 @@ class PanicSite:
         self.exp = exp
         self.term = term
         self.ordinal = 0
+        self.cond = None
 
     def key(self, fshort):
         return "%s|%s|%s|%d" % (fshort(self.body.defpath), self.kind, self.what, self.ordinal)
@@ -115,7 +116,9 @@ def sites(body, prog=None, include_overflow=True):
             if ak in ("ResumedAfterReturn", "ResumedAfterPanic", "ResumedAfterDrop", "MisalignedPointerDereference", "NullPointerDereference"):
                 continue
             ops = [body.operand_term(o) for o in t["ops"]]
-            out.append(PanicSite(body, i, "assert", ak, "", sp, exp, ("tuple", tuple(ops))))
+            ps = PanicSite(body, i, "assert", ak, "", sp, exp, ("tuple", tuple(ops)))
+            ps.cond = body.operand_term(t["cond"])
+            out.append(ps)
     # ordinals among equal (kind, what) in this body, in block order
     seen = {}
     for s in out:
@@ -131,7 +134,7 @@ def _short_ty(t):
     return t[:50]
 
 
-def review(ob, prog, roots, table, fshort, stop=(), include_overflow=False, scope=None, skip=None):
+def review(ob, prog, roots, table, fshort, stop=(), include_overflow=False, scope=None, skip=None, auto=None):
     """Reviewed-panic-site closure: every panic site in bodies reachable from `roots` (optionally
     restricted by scope(defpath)) must be covered by `table`:
         (fn path without crate prefix, kind, what) -> (max_count, reason[, status])
@@ -139,6 +142,7 @@ def review(ob, prog, roots, table, fshort, stop=(), include_overflow=False, scop
     listed in known_findings.json). An unlisted site, or more sites than reviewed, is a failure."""
     U = prog.reachable_from(roots, stop=stop)
     groups = {}
+    autos = {}
     nbodies = 0
     for d in sorted(U):
         b = prog.bodies[d]
@@ -150,6 +154,11 @@ def review(ob, prog, roots, table, fshort, stop=(), include_overflow=False, scop
         for s in sites(b, prog, include_overflow=include_overflow):
             if skip is not None and skip(s):
                 continue
+            if auto is not None:
+                why = auto(s, prog)
+                if why:
+                    autos.setdefault((d.replace("alpenglow::", ""), s.kind, s.what, why), []).append(s)
+                    continue
             groups.setdefault((d.replace("alpenglow::", ""), s.kind, s.what), []).append(s)
     for k, ss in sorted(groups.items()):
         rev = table.get(k)
@@ -165,4 +174,6 @@ def review(ob, prog, roots, table, fshort, stop=(), include_overflow=False, scop
             chain = prog.call_chain(list(roots), s.body.defpath)
             ob.fail("%s|%s|%s|unreviewed|%d" % (k[0], k[1], k[2], s.ordinal), "unreviewed panic site (%s %s %r)" % (s.kind, s.what, s.msg), s.span,
                     {"call_chain": [fshort(x) for x in chain][-6:] if chain else None, "reviewed_count": rev[0] if rev else 0, "found": len(ss)})
-    return nbodies, sum(len(v) for v in groups.values())
+    for k, ss in sorted(autos.items()):
+        ob.ok("%s|%s|%s|auto" % k[:3], "auto-discharged (%d site(s)): %s" % (len(ss), k[3]), ss[0].span, nontrivial=False)
+    return nbodies, sum(len(v) for v in groups.values()) + sum(len(v) for v in autos.values())
